@@ -1659,6 +1659,46 @@ func runC20(w *World, r *Report) {
 	}
 
 	// ---- nil-miss-deref
+	r.Rule("C20.workflow-inputs-applied-once", "the deferred inputs of a workflow node are forgotten in the same loop that applies them: a Compile refused later for a reason that is not sticky (an unsupported option, WithMaxRunSteps on a Workflow) must not leave them to be applied a second time by the next Compile, which would then fail for good with 'entire output has already been mapped'", 1)
+	{
+		wfc := w.Fn("compose", "Workflow.compile")
+		wnT := w.Named("compose", "WorkflowNode")
+		var reset ssa.Instruction
+		for _, fw := range fieldWrites(wfc) {
+			if fw.owner == wnT && fw.field.Name() == "addInputs" && fw.kind == "store" && isNilConst(fw.val) {
+				reset = fw.in
+			}
+		}
+		// the applying call: a dynamic call of an element of n.addInputs
+		var apply ssa.Instruction
+		instrs(wfc, func(in ssa.Instruction) {
+			c, ok := in.(*ssa.Call)
+			if !ok || c.Call.IsInvoke() || staticCallee(c) != nil {
+				return
+			}
+			if u, isU := c.Call.Value.(*ssa.UnOp); isU {
+				if ia, isIA := u.X.(*ssa.IndexAddr); isIA {
+					if f, _ := loadedField(ia.X); f != nil && f.Name() == "addInputs" {
+						apply = in
+					}
+				}
+			}
+		})
+		good := false
+		if reset != nil && apply != nil {
+			for _, li := range naturalLoops(wfc) {
+				if li.body[reset.Block()] && li.body[apply.Block()] {
+					good = true
+				}
+			}
+		}
+		pos := wfc.Pos()
+		if reset != nil {
+			pos = reset.Pos()
+		}
+		r.Check(good, "C20.workflow-inputs-applied-once", "Workflow.compile forgets a node's inputs in the loop that applies them", pos, "n.addInputs = nil inside the replay loop", "the inputs are forgotten elsewhere (after the inner graph's compile succeeded, or never): after a Compile refused for a non-sticky reason the next Compile replays them into the inner graph a second time, fails 'entire output has already been mapped for node', and that error sticks — a well-formed workflow is rejected for good")
+	}
+
 	r.Rule("C20.chain-tail-order-free", "the list of 'previous nodes' a Chain keeps between Append calls (the next Append adds its edges in that order, and a pass-through node is typed from the first edge it is shown) never holds the keys of a map in iteration order: where it is filled from a map (the branch's end nodes) it is sorted — or the same Append sequence is accepted on some attempts and rejected on others", 2)
 	{
 		chainT := w.Named("compose", "Chain")
